@@ -4,6 +4,7 @@ package scen
 
 import (
 	"encoding/hex"
+	"errors"
 	"fmt"
 	"io"
 	"net"
@@ -81,14 +82,15 @@ func furtherHex(d *knxnet.DescriptionRes) string {
 }
 
 type CallRet struct {
-	Further string
-	Timeout mc.Duration
-	What    string
-	IAs     []uint16
-	Err     string
-	T0      mc.Duration
-	Closed  bool
-	Writes  []string
+	WriteFailed bool
+	Further     string
+	Timeout     mc.Duration
+	What        string
+	IAs         []uint16
+	Err         string
+	T0          mc.Duration
+	Closed      bool
+	Writes      []string
 }
 
 func (c CallRet) String() string {
@@ -166,8 +168,12 @@ func c20Describe(slots int) func() {
 				evs = append(evs, Ev{0, "readerr", ia, s})
 			}
 		}
+		writeFails := mc.Choose(2, mc.Free) == 1 // the request cannot be sent (e.g. network unreachable)
 		w.OnCreate = func(e *vnet.Endpoint) {
 			ep = e
+			if writeFails {
+				e.WriteErr = errors.New("network is unreachable")
+			}
 			started := false
 			e.OnWrite = func(wr vnet.WriteRec) {
 				if !started {
@@ -178,7 +184,7 @@ func c20Describe(slots int) func() {
 		}
 		t0 := mc.Now()
 		res, err := knx.DescribeTunnel("192.0.2.99:3671", timeout)
-		ret := CallRet{Timeout: timeout, What: fmt.Sprintf("Describe(timeout=%v)", timeout), Err: errStr(err), T0: t0}
+		ret := CallRet{WriteFailed: writeFails, Timeout: timeout, What: fmt.Sprintf("Describe(timeout=%v)", timeout), Err: errStr(err), T0: t0}
 		if res != nil {
 			ret.IAs = []uint16{uint16(res.DeviceHardware.Source)}
 			ret.Further = furtherHex(res)
@@ -234,8 +240,12 @@ func c20Discover(slots int, flat int) func() {
 		for i := 0; i < flat; i++ {
 			evs = append(evs, Ev{mc.Duration(i) * timeout / 40, "resp", uint16(0x2000 + i), 100 + i})
 		}
+		writeFails := mc.Choose(2, mc.Free) == 1
 		w.OnCreate = func(e *vnet.Endpoint) {
 			ep = e
+			if writeFails {
+				e.WriteErr = errors.New("network is unreachable")
+			}
 			started := false
 			e.OnWrite = func(wr vnet.WriteRec) {
 				if !started {
@@ -246,7 +256,7 @@ func c20Discover(slots int, flat int) func() {
 		}
 		t0 := mc.Now()
 		res, err := knx.DiscoverOnInterface(nil, "224.0.23.12:3671", timeout)
-		ret := CallRet{Timeout: timeout, What: fmt.Sprintf("Discover(timeout=%v)", timeout), Err: errStr(err), T0: t0}
+		ret := CallRet{WriteFailed: writeFails, Timeout: timeout, What: fmt.Sprintf("Discover(timeout=%v)", timeout), Err: errStr(err), T0: t0}
 		for _, r := range res {
 			ret.IAs = append(ret.IAs, uint16(r.DescriptionB.DeviceHardware.Source))
 		}
@@ -307,6 +317,16 @@ func c20Oracle(discover bool) func(tr *mc.Trace) []h.Violation {
 			}
 		}
 		hist := fmt.Sprint(injs)
+		if ret.WriteFailed {
+			// the request could not be sent: the call reports the error - and still releases its socket
+			if ret.Err == "" {
+				bad("send-error-swallowed", "%s returned no error although its request could not be written", ret.What)
+			}
+			if !ret.Closed {
+				bad("socket-not-released", "%s returned (with the send error) without having closed its socket", ret.What)
+			}
+			return vs
+		}
 		if ret.Err != "" {
 			bad("error", "%s returned error %q (%s)", ret.What, ret.Err, hist)
 		}
